@@ -35,6 +35,9 @@ type c17Config struct {
 	// Ctx: the context handed to the *WithContext calls: "" = context.Background() | later = a context whose own
 	// deadline is one hour away (the configured timeout is the tighter bound and still has to hold)
 	Ctx string `json:"ctx,omitempty"`
+	// Warm: the Client has just been used for a complete, healthy DialAndSend (connection 0) when the judged call
+	// starts; the server goes silent on the next connection
+	Warm bool `json:"warm_client,omitempty"`
 }
 
 type c17Case struct {
@@ -62,7 +65,20 @@ func runC17Case(r *ev.Run, c c17Case) int {
 		watchdog += 6 * time.Second
 	}
 	tm := gen.TLS()
-	farm := &refsmtp.Farm{NewConfig: func(int) *refsmtp.Config {
+	judged := 0 // index of the connection the judged call runs on
+	if cfg.Warm {
+		judged = 1
+	}
+	farm := &refsmtp.Farm{NewConfig: func(n int) *refsmtp.Config {
+		if n < judged {
+			return &refsmtp.Config{AllowUTF8: true, RefuseEHLO: cfg.RefuseEHLO, TLS: gen.ServerTLS(tm.Good, 0, 0), Auth: plainAuthHandler("user", "secret-pass"),
+				Caps: func(_ int, tlsOn bool) []string {
+					if tlsOn && cfg.CapsTLS != nil {
+						return cfg.CapsTLS
+					}
+					return cfg.Caps
+				}}
+		}
 		return &refsmtp.Config{
 			Decide: scriptDecide(c.Script), AllowUTF8: true, RefuseEHLO: cfg.RefuseEHLO,
 			TLS: gen.ServerTLS(tm.Good, 0, 0), TLSStall: c.StallTLS, StallDataAfter: c.StallData,
@@ -114,6 +130,13 @@ func runC17Case(r *ev.Run, c c17Case) int {
 		defer close(done)
 		defer func() { _ = recover() }()
 		ctx := context.Background()
+		if cfg.Warm {
+			warm, _ := simpleMsg("c17w", "w0@sender.example", rc, "quoted-printable", "warm-up\r\n")
+			if err := cl.DialAndSendWithContext(ctx, warm); err != nil {
+				setupFailed = true
+				return
+			}
+		}
 		if cfg.Ctx == "later" {
 			var cancel context.CancelFunc
 			ctx, cancel = context.WithTimeout(ctx, time.Hour)
@@ -162,8 +185,8 @@ func runC17Case(r *ev.Run, c c17Case) int {
 	stallVerb := "none"
 	steps := 0
 	sess, conns := farm.Snapshot()
-	if len(sess) > 0 {
-		cmds, _, _ := sess[0].Snapshot()
+	if len(sess) > judged {
+		cmds, _, _ := sess[judged].Snapshot()
 		for _, cr := range cmds {
 			if cr.Index+1 > steps {
 				steps = cr.Index + 1
@@ -174,8 +197,8 @@ func runC17Case(r *ev.Run, c c17Case) int {
 		}
 	}
 	var pendR, pendW []faultio.ReadObs
-	if len(conns) > 0 {
-		pendR, pendW = conns[0].PendingIO()
+	if len(conns) > judged {
+		pendR, pendW = conns[judged].PendingIO()
 	}
 	mu.Lock()
 	cs, ret, retAt := callStart, returned, returnedAt
@@ -208,7 +231,7 @@ func runC17Case(r *ev.Run, c c17Case) int {
 		}
 		r.Eval(cfg.Name+"|"+stallVerb+"|"+scriptString(c.Script)+fmt.Sprint(c.StallData, c.StallTLS), true)
 		if el > 3*timeout+c17Slack && os.Getenv("VERIF_DEBUG") != "" {
-			fmt.Fprintf(os.Stderr, "SLOW %s stall=%s el=%v err=%v transcript=%s\n", cfg.Name, stallVerb, el, callErr, sess[0].Transcript())
+			fmt.Fprintf(os.Stderr, "SLOW %s stall=%s el=%v err=%v transcript=%s\n", cfg.Name, stallVerb, el, callErr, sess[judged].Transcript())
 		}
 		if el > 3*timeout+c17Slack {
 			r.Seen("slow_returns", fmt.Sprintf("%s:%s:%dms", cfg.Call, stallVerb, el.Milliseconds()/100*100))
@@ -252,6 +275,8 @@ func c17Configs(thorough bool) []c17Config {
 				c17Config{Name: call + "-starttls-auth", Call: call, TLS: "starttls", Caps: with("STARTTLS"), CapsTLS: with("AUTH PLAIN"), Auth: "PLAIN-TLSONLY", NRcpt: 1, TimeoutMS: tmo},
 			)
 		}
+		// a Client that has just completed a healthy DialAndSend (state carried from one connection to the next)
+		cfgs = append(cfgs, c17Config{Name: call + "-warm-client", Call: call, TLS: "none", Caps: all, NRcpt: 1, TimeoutMS: tmo, Warm: true})
 		// a caller context with a deadline of its own that is far later than the configured timeout
 		cfgs = append(cfgs, c17Config{Name: call + "-plain-ctx-later", Call: call, TLS: "none", Caps: with("AUTH PLAIN"), Auth: "PLAIN", NRcpt: 1, TimeoutMS: tmo, Ctx: "later"})
 		if thorough || call == "dial" {
@@ -273,7 +298,7 @@ func c17Configs(thorough bool) []c17Config {
 
 func runC17(r *ev.Run, rep *ev.ReplayDoc) ev.Summary {
 	sum := ev.Summary{
-		Rule: "for DialWithContext, DialAndSend, Send and Reset x {no TLS, STARTTLS} x {no auth, PLAIN, LOGIN, AUTH after STARTTLS, HELO fallback} x {context.Background, a caller context whose own deadline is an hour away}: the reference server goes silent (holding the connection) at every command position of the dialogue in turn - greeting, EHLO, HELO, STARTTLS reply, inside the TLS handshake, post-TLS EHLO, every AUTH step, NOOP, MAIL, each RCPT, DATA, inside the content, end-of-data reply, RSET, QUIT. The tracking conn records the deadline armed at the entry of every Read/Write. non-trivial = the stall point was reached; distinct by (configuration, stall point)",
+		Rule: "for DialWithContext, DialAndSend, Send and Reset x {no TLS, STARTTLS} x {no auth, PLAIN, LOGIN, AUTH after STARTTLS, HELO fallback} x {context.Background, a caller context whose own deadline is an hour away} x {fresh Client, Client that has just completed a healthy DialAndSend}: the reference server goes silent (holding the connection) at every command position of the dialogue in turn - greeting, EHLO, HELO, STARTTLS reply, inside the TLS handshake, post-TLS EHLO, every AUTH step, NOOP, MAIL, each RCPT, DATA, inside the content, end-of-data reply, RSET, QUIT. The tracking conn records the deadline armed at the entry of every Read/Write. non-trivial = the stall point was reached; distinct by (configuration, stall point)",
 		Assumptions: []string{
 			"generous bound: a call counts as blocked only if it has not returned max(20 x timeout, 5 s) + timeout after it started",
 			"violation = still blocked AND the pending network operation was entered without a deadline (the logical cause); blocked with a deadline armed = inconclusive",
